@@ -127,6 +127,7 @@ def run(tier, seed, out, drv, facts):
     pep604_cases(out)
     union_history_cases(out, drv, facts, rng)
     bare_pytree_cases(out)
+    leaf_type_matrix_cases(out)
     after_fault_cases(out)
 
 
@@ -261,6 +262,110 @@ def pep604_cases(out):
                 if got != want:
                     out.violation(f"pep604:{want}->{got}", f"isinstance({tree!r}, PyTree[{name}]) answers {got}; every leaf {'matches' if want == 'T' else 'must match'} "
                                   f"one of the members, so the answer must be {want}", {"pep604": name, "tree": repr(tree)})
+
+
+def leaf_type_matrix_cases(out):
+    """the leaf test of `PyTree[L]` for the kinds of L the typing module offers (containers, fixed and variadic tuples,
+    Literal, TypedDict, NamedTuple, Type[...], Callable, Protocol, TypeVar, NewType, nested combinations): a value is a
+    leaf of type L iff typeguard 2.13 (the installed package, of which `jaxtyping._typeguard` is a vendored copy) says it
+    matches L. Two levels: the vendored `check_type` against the installed one on a grid of types x values, and
+    `isinstance(tree, PyTree[L])` against "flatten with that leaf test, then every leaf matches" computed with the
+    installed package and jax."""
+    import collections
+    import typing
+    from typing import Any, Callable, Dict, List, Literal, NamedTuple, Optional, Sequence, Set, Tuple, Type, TypedDict, TypeVar, Union
+
+    import jax.tree_util as jtu
+    import typeguard as upstream
+    from jaxtyping import PyTree
+    from jaxtyping import _typeguard as vendored
+
+    class TD(TypedDict):
+        a: int
+        b: str
+
+    class TDpartial(TypedDict, total=False):
+        a: int
+
+    class NT(NamedTuple):
+        x: int
+        y: str
+
+    @typing.runtime_checkable
+    class HasLen(typing.Protocol):
+        def __len__(self) -> int: ...
+
+    class Base:
+        pass
+
+    class Sub(Base):
+        pass
+
+    TB = TypeVar("TB", bound=Base)
+    TC = TypeVar("TC", int, str)
+    UserId = typing.NewType("UserId", int)
+
+    types = [
+        ("int", int), ("float", float), ("complex", complex), ("str", str), ("bytes", bytes), ("bool", bool), ("Any", Any),
+        ("Literal[1, 'a']", Literal[1, "a"]), ("Tuple[int, int]", Tuple[int, int]), ("tuple[int, str]", tuple[int, str]), ("Tuple[int, ...]", Tuple[int, ...]),
+        ("Tuple[()]", Tuple[()]), ("List[int]", List[int]), ("list[str]", list[str]), ("Sequence[int]", Sequence[int]), ("Set[int]", Set[int]),
+        ("Dict[str, int]", Dict[str, int]), ("dict[int, int]", dict[int, int]), ("Type[Base]", Type[Base]), ("Callable[[int], int]", Callable[[int], int]),
+        ("Callable[..., Any]", Callable[..., Any]), ("Union[int, str]", Union[int, str]), ("Optional[int]", Optional[int]), ("TD", TD), ("TDpartial", TDpartial),
+        ("NT", NT), ("HasLen", HasLen), ("TB", TB), ("TC", TC), ("UserId", UserId), ("Base", Base), ("Tuple[Tuple[int, int], str]", Tuple[Tuple[int, int], str]),
+        ("List[Tuple[int, int]]", List[Tuple[int, int]]), ("Dict[str, List[int]]", Dict[str, List[int]]), ("Union[Tuple[int, int], List[str]]", Union[Tuple[int, int], List[str]]),
+        ("Optional[TD]", Optional[TD]), ("collections.abc.Sequence", collections.abc.Sequence[int]),
+    ]
+    values = [
+        0, 1, 2, True, 1.5, 1j, "a", "b", "", b"x", None, (), (1,), (1, 2), (1, 2, 3), (1, "a"), ("a", 1), ((1, 2), "s"), ((1,), "s"), [], [1], [1, 2], ["a"], [1, "a"],
+        [(1, 2)], [(1,)], {1, 2}, {"a"}, set(), {}, {"a": 1}, {"a": 1, "b": "s"}, {"a": "x", "b": "s"}, {"a": 1, "b": 2}, {"b": "s"}, {"a": [1, 2]}, {"a": [1, "x"]}, {1: 2},
+        {"a": "", "b": "s"}, {"a": 0, "b": ""}, {"a": None, "b": "s"}, {"a": 0.0, "b": "s"}, {"a": 0, "b": 0}, (0, 0), (0, ""), ("", 0), [0], [""], [0, ""], {"": 0}, {0: 0},
+        NT(1, "s"), NT("s", 1), Base(), Sub(), Base, Sub, int, len, (lambda x: x), (lambda: 0), object(),
+    ]
+
+    def verdict(mod, v, t):
+        try:
+            mod.check_type("leaf", v, t)
+            return "T"
+        except TypeError:
+            return "F"
+        except BaseException as e:  # noqa: BLE001
+            return "E:" + type(e).__name__
+
+    for tname, t in types:
+        row_v = "".join(verdict(vendored, v, t)[0] for v in values)
+        row_u = "".join(verdict(upstream, v, t)[0] for v in values)
+        out.case(("leaf-matrix", tname), True, sample={"leaf_type": tname, "vendored": row_v, "installed": row_u})
+        if row_v != row_u:
+            k = next(i for i, (a, b) in enumerate(zip(row_v, row_u)) if a != b)
+            out.violation(f"leaf-matrix:{tname}", f"does {values[k]!r} match {tname}? the leaf test of PyTree (jaxtyping._typeguard) says {verdict(vendored, values[k], t)}, "
+                          f"typeguard {upstream.__name__} 2.13 says {verdict(upstream, values[k], t)}", {"leaf_matrix": tname, "value": repr(values[k])})
+            continue
+        # ... and through PyTree[L]: trees over the values, flattened with the leaf test
+        try:
+            ann = PyTree[t]
+        except BaseException as e:  # noqa: BLE001
+            out.violation("leaf-matrix:build", f"PyTree[{tname}] cannot be built: {type(e).__name__}: {e}", {"leaf_matrix": tname})
+            continue
+
+        def is_leaf(x, t=t):
+            return verdict(upstream, x, t) == "T"
+
+        picks = [v for v, c in zip(values, row_u) if c == "T"][:3] + [v for v, c in zip(values, row_u) if c == "F"][:4]
+        trees = []
+        for v in picks:
+            trees += [v, [v], (v, v), {"k": v}, [v, picks[0]], {"p": [picks[0]], "q": (v,)}]
+        for tree in trees:
+            try:
+                leaves = jtu.tree_leaves(tree, is_leaf=is_leaf)
+            except BaseException:  # noqa: BLE001
+                continue
+            want = "T" if all(is_leaf(x) for x in leaves) else "F"
+            got = impl.check_once(tree, ann)
+            out.case(("leaf-matrix-tree", tname, repr(tree)[:50]), True)
+            if got != want:
+                out.violation(f"leaf-matrix-tree:{tname}:{want}->{got}", f"isinstance({tree!r}, PyTree[{tname}]) answers {got}; flattened with the leaf test its leaves are "
+                              f"{leaves!r}, so the answer must be {want}", {"leaf_matrix": tname, "tree": repr(tree)})
+                break
 
 
 def bare_pytree_cases(out):
@@ -421,6 +526,9 @@ def replay(rep, out, drv, facts):
         return
     if "pep604" in rep:
         pep604_cases(out)
+        return
+    if "leaf_matrix" in rep:
+        leaf_type_matrix_cases(out)
         return
     if "bare_pytree" in rep:
         bare_pytree_cases(out)
